@@ -264,7 +264,7 @@ pub fn aux_class(a: &Option<Vec<u8>>, mlen: usize) -> u8 {
 }
 
 pub fn run(ctx: &Ctx) -> Rec {
-  let n = ctx.n(8000, 300_000);
+  let n = ctx.n(8000, 120_000);
   let mut rec = par_run(ctx, "scenario", n, |rec, i, rng| scenario(rec, ctx, i, rng));
   let _ = HashMap::<u8, u8>::new();
   rec.note("scenarios", json!(n));
